@@ -27,7 +27,7 @@ func init() {
 		Level: "fault_enumeration",
 		Rule: "a tape-drawn ledger scenario is run once on a victim and an uncrashed twin; 2-4 operations of the victim (block insertion of drawn kinds, reset-to-height + re-application) are recorded as journals of atomic storage units; " +
 			"one case = (scenario, operation, k): the disk left by a process death before unit k, for EVERY k of the operation, is restarted with the production start-up sequence and caught up; " +
-			"non-trivial = 0 < k < U (the crash falls strictly inside the operation); distinct by (scenario fingerprint, operation, k). Second-order crashes inside the recovery are sampled.",
+			"non-trivial = 0 < k < U (the crash falls strictly inside the operation); distinct by (scenario fingerprint, operation, k). Second-order crashes inside the recovery are sampled. A complete fast sync of a late joiner (header intake, snapshot import, switch, clean-up) is one more recorded operation; for a third of its crash points that lie before the switch the restarted node also resumes the fast sync, finishes it and is restarted once more.",
 		Real:         append(append([]string{}, realLedger...), "node start-up sequence (InitializeChain, AppState.Initialize with fallback, EnsureIntegrity)", "Blockchain.ResetTo"),
 		Stub:         stubLedger,
 		Assumptions:  []string{"the store is prefix-durable over atomic units (single put/delete or batch), as LevelDB with its WAL is for a process death; torn batches are not injected", "content-store (IPFS) adds are durable once Add returned (they precede the header writes in insertBlock)"},
